@@ -3,6 +3,7 @@
 One real call per action of the specification:
 
   CreateBlob Rewrite Append_ ConsumeFile ModifyP   Blob() / blob.open('w'|'a') / blob.consumeFile / attribute
+  ConsumeFail                                      blob.consumeFile(<a path that does not exist>): raises
   Savepoint Rollback AbortTxn                      transaction.savepoint() / savepoint.rollback() / abort()
   TpcBegin StoreOK|StoreFail Vote Finish           ONE transaction.commit(): the phases are observed from a
   ConnAbort TpcAbort                               second resource manager (Probe) that the transaction calls
@@ -41,7 +42,7 @@ from .storage import diff
 ALIASES = {'Append_': 'Append', 'PackAtTid': 'Pack'}
 CHAIN_START = ('TpcBegin', 'UBegin')
 CHAIN_END = ('Finish', 'TpcAbort')
-EDITS = ('CreateBlob', 'Rewrite', 'Append', 'ConsumeFile', 'ModifyP')
+EDITS = ('CreateBlob', 'Rewrite', 'Append', 'ConsumeFile', 'ConsumeFail', 'ModifyP')
 ALL_ACTIONS = EDITS + ('Savepoint', 'Rollback', 'AbortTxn', 'TpcBegin', 'StoreOK', 'StoreFail', 'Vote', 'Finish',
                        'ConnAbort', 'TpcAbort', 'OtherCommit', 'UBegin', 'UStoreOK', 'UStoreFail', 'Pack')
 P_OID = 1
@@ -462,6 +463,8 @@ class BlobReplayer:
                 with open(path, 'wb') as f:
                     f.write(self.data((x,)))
                 self.handle(b).consumeFile(path)
+            elif a == 'ConsumeFail':
+                self.handle(args[0]).consumeFile(os.path.join(self.dir, 'ext', 'no-such-file'))
             elif a == 'ModifyP':
                 self.c1.root()['p'].v = args[0]
             elif a == 'Savepoint':
